@@ -115,6 +115,10 @@ def cex_matches(f, c):
 
 def reproduce(pkg, c, timeout_ms=10000):
     """replay one counterexample natively; returns (reproduced?, native result)"""
+    if c['func'].endswith('Race'):
+        # non-interference obligations are confirmed by the race detector on a concurrent native run
+        r = native_run(pkg, [(c['func'], c['args'])], timeout_ms=max(timeout_ms, 120000), race=True)[0]
+        return bool(r.get('race')), r
     r = native_run(pkg, [(c['func'], c['args'])], timeout_ms=timeout_ms)[0]
     if c['kind'] == 'ret':
         ok = 'ret' in r and r['ret'] and r['ret'][0] == c['code']
@@ -296,7 +300,8 @@ def main(mod):
     wall = time.time() - t0
     meta = getattr(mod, 'META', {})
     ev = dict(property_id=pid, tier='thorough' if a.tier == 'thorough' else 'quick', seed=seed, level='model_checking',
-              coverage=dict(states=int(stats.get('states', 0)) or 1, transitions=int(stats.get('blocks', 0)) or 1,
+              coverage=dict(states=(int(stats.get('forks', 0)) + int(stats.get('runs', 0)) + len(jobs)) or 1, transitions=int(stats.get('blocks', 0)) or 1,
+                            scheduled_frames=int(stats.get('states', 0)),
                             traces_validated_against_impl=nvalid,
                             samples=jsonable(samples) or ['(no sample recorded)'],
                             obligations=nobl, jobs=len(jobs), jobs_inconclusive=len(incon),
@@ -307,6 +312,7 @@ def main(mod):
                             functions_encoded=meta.get('functions_encoded', []), stubs=meta.get('stubs', []),
                             bounds=meta.get('bounds', {}).get(a.tier, meta.get('bounds', {})), outside_claim=meta.get('outside_claim', []),
                             known_findings_matched=sorted(matched), exhaustive=False,
+                            states_rule='states = symbolic path states created (one per harness run plus one per fork); transitions = basic blocks executed symbolically; scheduled_frames = frames pushed on the scheduler',
                             explanation='bounded symbolic execution of the go/ssa form of the listed functions (regenerated from /repo on this run); every job is decided by z3 over all values of its symbolic inputs within the stated bounds'),
               assumptions=meta.get('assumptions', []), wall_s=round(wall, 2), violations=len(violations))
     evdir = os.environ.get('VERIF_EVIDENCE_DIR') or os.path.join(VERIF, 'evidence')
